@@ -337,6 +337,23 @@ theorem accepted_lookups_sound {R : Registry} (wf : WF R) (hok : checkDependenci
         (∀ n ∈ Dsuite, (∀ g, lookup R n = some g → Scope.suite.level ≤ g.scope.level) → getResult c3 n = .ok ()) :=
   run_chain_sound wf hok Dsession Dsuite Dtest hks h1 h2
 
+/-
+  Full-strength form of the property's last sentence — kept visible, NOT proved in this file:
+
+      ∀ P, prepare P = ok → (no failing act in any user script of P) →
+        ∀ N ≥ 1, ∀ complete execution of `run_suites` with N workers,
+          (every scheduled test ends `passed` or `disabled`) ∧ outcome = returned true
+
+  It needs the scheduler M1, the task graph M2 and the run semantics M5 (C01–C03), and it is REFUTED on
+  the unchanged tree by D1 (accepted project with a leaf suite without tests, N ≥ 2: `LookupError` in
+  `on_suite_end`; witness `D1_WITNESS` in the corpus of stream `C14.run`, open known finding
+  `C14/run/D1-empty-suite-with-threads/LookupError`; the Lean refutation lives with the M2 model).
+  What IS proved here is the fixture-machinery half, for every accepted project, every suite that gets
+  initialised and every test that really runs: `accepted_project_run_sound` below (the `_partial` form:
+  "no structural failure can come from `ScheduledFixtures`").  The rest of the sentence is tied to the
+  code by really running every accepted generated project (stream `C14.run`).
+-/
+
 /-- **The same for a whole accepted project**, with the direct uses the runner really computes
     (`get_fixtures_scheduled_for_pre_run/_session/_suite/_test`, `include_disabled = force_disabled`):
     for every suite `s` of the tree that gets initialised and every test `t` of `s` that really runs,
